@@ -1,3 +1,379 @@
-//! C01 harnesses (see /verif/DESIGN.md section 5).
+//! C01 / C02 - per-layer decoders over an exact-size buffer of symbolic length and content.
+//!
+//! The same bodies decide both properties (DESIGN 2.2): out-of-object accesses and violated
+//! unsafe preconditions are C01-class, panics / overflows / unwinding are C02-class, the explicit
+//! containment assertions (`C01: ...`) are C01.
+//!
+//! Every decoder gets its input in a heap object of exactly `len` bytes (`Tight`), all public
+//! accessors, conversions and iterators of the result are called, and every sub-slice handed back
+//! must lie inside the input.
 
-crate::harnesses! {}
+use crate::sym::{any, any_le, assume};
+use crate::tight::{inside, Tight};
+use crate::witness;
+use etherparse::*;
+
+macro_rules! within {
+    ($outer:expr, $sub:expr) => {
+        assert!(inside($outer, $sub), "C01: returned sub-slice lies outside the input slice");
+    };
+}
+pub(crate) use within;
+
+#[inline(never)]
+fn sink<T>(v: T) {
+    // keeps a computed value alive (accessors are pure; Kani checks them while evaluating)
+    core::mem::forget(v);
+}
+
+// =============================================================== link layer
+
+pub fn touch_ether_payload(outer: &[u8], p: &EtherPayloadSlice) {
+    within!(outer, p.payload);
+    sink(p.ether_type);
+    sink(p.len_source);
+}
+
+pub fn touch_lax_ether_payload(outer: &[u8], p: &LaxEtherPayloadSlice) {
+    within!(outer, p.payload);
+    sink(p.ether_type);
+    sink(p.len_source);
+    sink(p.incomplete);
+}
+
+pub fn eth2_header_slice() {
+    let t = Tight::<20>::new(any_le(20));
+    let s = t.slice();
+    match Ethernet2HeaderSlice::from_slice(s) {
+        Ok(h) => {
+            witness!(true, "ok");
+            within!(s, h.slice());
+            assert!(h.slice().len() == 14);
+            sink(h.destination());
+            sink(h.source());
+            sink(h.ether_type());
+            sink(h.to_header());
+        }
+        Err(_) => {
+            witness!(true, "err");
+        }
+    }
+    match Ethernet2Header::from_slice(s) {
+        Ok((h, rest)) => {
+            within!(s, rest);
+            sink(h);
+        }
+        Err(_) => {}
+    }
+}
+
+pub fn eth2_slice() {
+    let t = Tight::<24>::new(any_le(24));
+    let s = t.slice();
+    let fcs: bool = any();
+    let r = if fcs {
+        Ethernet2Slice::from_slice_with_crc32_fcs(s)
+    } else {
+        Ethernet2Slice::from_slice_without_fcs(s)
+    };
+    match r {
+        Ok(e) => {
+            witness!(fcs, "ok_fcs");
+            witness!(!fcs && e.payload_slice().len() > 0, "ok_nofcs_payload");
+            within!(s, e.slice());
+            within!(s, e.header_slice());
+            within!(s, e.payload_slice());
+            touch_ether_payload(s, &e.payload());
+            sink(e.destination());
+            sink(e.source());
+            sink(e.ether_type());
+            sink(e.fcs());
+            sink(e.to_header());
+        }
+        Err(_) => {
+            witness!(true, "err");
+        }
+    }
+}
+
+pub fn vlan_slice() {
+    let t = Tight::<12>::new(any_le(12));
+    let s = t.slice();
+    match SingleVlanHeaderSlice::from_slice(s) {
+        Ok(h) => {
+            within!(s, h.slice());
+            sink(h.priority_code_point());
+            sink(h.drop_eligible_indicator());
+            sink(h.vlan_identifier());
+            sink(h.ether_type());
+            sink(h.to_header());
+        }
+        Err(_) => {}
+    }
+    match SingleVlanSlice::from_slice(s) {
+        Ok(v) => {
+            witness!(v.payload_slice().len() > 0, "ok_payload");
+            within!(s, v.slice());
+            within!(s, v.header_slice());
+            within!(s, v.payload_slice());
+            touch_ether_payload(s, &v.payload());
+            sink(v.priority_code_point());
+            sink(v.drop_eligible_indicator());
+            sink(v.vlan_identifier());
+            sink(v.ether_type());
+            sink(v.to_header());
+        }
+        Err(_) => {
+            witness!(true, "err");
+        }
+    }
+    match SingleVlanHeader::from_slice(s) {
+        Ok((h, rest)) => {
+            within!(s, rest);
+            sink(h);
+        }
+        Err(_) => {}
+    }
+}
+
+pub fn touch_macsec_header(outer: &[u8], h: &MacsecHeaderSlice) {
+    within!(outer, h.slice());
+    sink(h.tci_an_raw());
+    sink(h.endstation_id());
+    sink(h.tci_scb());
+    sink(h.encrypted());
+    sink(h.userdata_changed());
+    sink(h.is_unmodified());
+    sink(h.ptype());
+    sink(h.an());
+    sink(h.short_len());
+    sink(h.packet_nr());
+    sink(h.sci_present());
+    sink(h.sci());
+    sink(h.next_ether_type());
+    sink(h.header_len());
+    sink(h.expected_payload_len());
+    sink(h.to_header());
+}
+
+pub fn macsec_slice() {
+    let t = Tight::<32>::new(any_le(32));
+    let s = t.slice();
+    match MacsecHeaderSlice::from_slice(s) {
+        Ok(h) => touch_macsec_header(s, &h),
+        Err(_) => {}
+    }
+    match MacsecHeader::from_slice(s) {
+        Ok(h) => sink(h),
+        Err(_) => {}
+    }
+    match MacsecSlice::from_slice(s) {
+        Ok(m) => {
+            touch_macsec_header(s, &m.header);
+            match &m.payload {
+                MacsecPayloadSlice::Unmodified(e) => {
+                    witness!(e.len_source == LenSource::MacsecShortLength, "ok_unmodified_short_len");
+                    touch_ether_payload(s, e);
+                }
+                MacsecPayloadSlice::Modified(p) => {
+                    witness!(true, "ok_modified");
+                    within!(s, p);
+                }
+            }
+            if let Some(e) = m.ether_payload() {
+                touch_ether_payload(s, &e);
+            }
+            sink(m.next_ether_type());
+        }
+        Err(_) => {
+            witness!(true, "err");
+        }
+    }
+}
+
+pub fn lax_macsec_slice() {
+    let t = Tight::<32>::new(any_le(32));
+    let s = t.slice();
+    match LaxMacsecSlice::from_slice(s) {
+        Ok(m) => {
+            touch_macsec_header(s, &m.header);
+            match &m.payload {
+                LaxMacsecPayloadSlice::Unmodified(e) => {
+                    witness!(e.incomplete, "ok_unmodified_incomplete");
+                    touch_lax_ether_payload(s, e);
+                }
+                LaxMacsecPayloadSlice::Modified { incomplete, payload } => {
+                    witness!(*incomplete, "ok_modified_incomplete");
+                    within!(s, payload);
+                }
+            }
+            if let Some(e) = m.ether_payload() {
+                touch_lax_ether_payload(s, &e);
+            }
+            sink(m.next_ether_type());
+        }
+        Err(_) => {
+            witness!(true, "err");
+        }
+    }
+}
+
+pub fn touch_sll_header(outer: &[u8], h: &LinuxSllHeaderSlice) {
+    within!(outer, h.slice());
+    sink(h.packet_type());
+    sink(h.arp_hardware_type());
+    sink(h.sender_address_valid_length());
+    sink(h.sender_address_full());
+    within!(outer, h.sender_address());
+    sink(h.protocol_type());
+    sink(h.to_header());
+}
+
+pub fn sll_slice() {
+    let t = Tight::<24>::new(any_le(24));
+    let s = t.slice();
+    match LinuxSllHeaderSlice::from_slice(s) {
+        Ok(h) => touch_sll_header(s, &h),
+        Err(_) => {}
+    }
+    match LinuxSllHeader::from_slice(s) {
+        Ok((h, rest)) => {
+            within!(s, rest);
+            sink(h);
+        }
+        Err(_) => {}
+    }
+    match LinuxSllSlice::from_slice(s) {
+        Ok(l) => {
+            witness!(l.payload_slice().len() > 0, "ok_payload");
+            within!(s, l.slice());
+            within!(s, l.header_slice());
+            within!(s, l.payload_slice());
+            within!(s, l.payload().payload);
+            within!(s, l.sender_address());
+            sink(l.packet_type());
+            sink(l.arp_hardware_type());
+            sink(l.sender_address_valid_length());
+            sink(l.sender_address_full());
+            sink(l.protocol_type());
+            sink(l.to_header());
+        }
+        Err(_) => {
+            witness!(true, "err");
+        }
+    }
+}
+
+/// `LinuxSllHeader::from_bytes` on arbitrary 16 bytes
+pub fn sll_from_bytes() {
+    let b: [u8; 16] = any();
+    match LinuxSllHeader::from_bytes(b) {
+        Ok(h) => {
+            witness!(true, "ok");
+            sink(h.to_bytes());
+        }
+        Err(_) => {
+            witness!(true, "err");
+        }
+    }
+}
+
+// =============================================================== ARP
+
+pub fn arp_slice() {
+    let t = Tight::<36>::new(any_le(36));
+    let s = t.slice();
+    match ArpPacketSlice::from_slice(s) {
+        Ok(a) => {
+            witness!(a.sender_hw_addr().len() > 0 && a.target_protocol_addr().len() > 0, "ok_nonempty_addrs");
+            within!(s, a.slice());
+            within!(s, a.sender_hw_addr());
+            within!(s, a.sender_protocol_addr());
+            within!(s, a.target_hw_addr());
+            within!(s, a.target_protocol_addr());
+            sink(a.hw_addr_type());
+            sink(a.proto_addr_type());
+            sink(a.hw_addr_size());
+            sink(a.proto_addr_size());
+            sink(a.operation());
+            let p = a.to_packet();
+            sink(p.hw_addr_size());
+            sink(p.protocol_addr_size());
+            sink(p.sender_hw_addr().len());
+            sink(p.sender_protocol_addr().len());
+            sink(p.target_hw_addr().len());
+            sink(p.target_protocol_addr().len());
+            sink(p.packet_len());
+            sink(p.try_eth_ipv4().is_ok());
+        }
+        Err(_) => {
+            witness!(true, "err");
+        }
+    }
+    match ArpPacket::from_slice(s) {
+        Ok(p) => sink(p.packet_len()),
+        Err(_) => {}
+    }
+}
+
+// =============================================================== readers (slice backed)
+
+/// `read` of the link-layer header types from a reader over an exact-size buffer
+pub fn link_readers() {
+    use std::io::Cursor;
+    let t = Tight::<20>::new(any_le(20));
+    let s = t.slice();
+    let which: u8 = any();
+    assume(which < 4);
+    match which {
+        0 => {
+            let mut c = Cursor::new(s);
+            if let Ok(h) = Ethernet2Header::read(&mut c) {
+                witness!(true, "eth_ok");
+                sink(h);
+            }
+        }
+        1 => {
+            let mut c = Cursor::new(s);
+            if let Ok(h) = SingleVlanHeader::read(&mut c) {
+                sink(h);
+            }
+        }
+        2 => {
+            let mut c = Cursor::new(s);
+            match LinuxSllHeader::read(&mut c) {
+                Ok(h) => {
+                    witness!(true, "sll_ok");
+                    sink(h.to_bytes());
+                }
+                Err(e) => {
+                    core::mem::forget(e);
+                }
+            }
+        }
+        _ => {
+            let mut c = Cursor::new(s);
+            match MacsecHeader::read(&mut c) {
+                Ok(h) => {
+                    witness!(true, "macsec_ok");
+                    sink(h.to_bytes());
+                }
+                Err(e) => {
+                    core::mem::forget(e);
+                }
+            }
+        }
+    }
+}
+
+crate::harnesses! {
+    c01_eth2_header_slice = eth2_header_slice; unwind 4,
+    c01_eth2_slice = eth2_slice; unwind 4,
+    c01_vlan_slice = vlan_slice; unwind 4,
+    c01_macsec_slice = macsec_slice; unwind 4,
+    c01_lax_macsec_slice = lax_macsec_slice; unwind 4,
+    c01_sll_slice = sll_slice; unwind 4,
+    c01_sll_from_bytes = sll_from_bytes; unwind 4,
+    c01_arp_slice = arp_slice; unwind 40,
+    c01_link_readers = link_readers; unwind 24,
+}
